@@ -347,7 +347,8 @@ class SymArray(real_np.ndarray):
         return res
 
     def astype(self, dtype, *a, **k):
-        if dtype in (float, real_np.float64, 'float64', 'float', 'double', real_np.float32, object):
+        if dtype in (float, real_np.float64, 'float64', 'float', 'double', real_np.float32, object) or \
+                getattr(dtype, '__name__', '') == '_Float64':
             return self.copy()
         if dtype in (bool, real_np.bool_):
             return force_bool_array(self != 0 if not any(isinstance(v, B) for v in self.flat) else self)
